@@ -1,215 +1,27 @@
-(* OneDocReaders.v — WRITERS and READERS of one metadata document, any number, every schedule
-   (property C12 beyond the menus; OneDoc.v covers pools of writers only).
+(* OneDocDel.v — WRITERS, READERS and DELETERS of one metadata document, any number, every schedule
+   (property C12 beyond the menus; OneDocReaders.v covers store_metadata + retrieve_metadata).
 
-   retrieve_metadata p f takes NO lock: it tests twice that the document exists and then opens it
-   (three operations; [Read a] answers the whole content at once).  None of them changes the world.
-   A store_metadata p f call holds the document lock from its first to its last operation; the ONE
-   operation of it that changes the document is the [Rename tmp -> document] (its commit point),
-   the temp file is complete by then, and the only operation after it is the Release.
+   delete_metadata p (Some f) is a writer in the sense of OneDocReaders.v: it holds the document
+   lock from its first to its last operation, tests the document and removes it; the [Remove] is
+   its commit point (the version it makes is "absent"), the Release follows at once; when the
+   document is absent it commits nothing.  So [Pre] holds for it with "absent" among the versions.
 
-     §1  [Pre]: "inside the critical section, not yet committed" as a predicate on the residual
-         program AND the current world (it follows the thread's run, the other threads of these
-         pools cannot disturb it); [PreK]: its compositional form for bind / mbind; store_metadata
-         has it from every world
-     §2  pools of writers (any program with that shape), readers, and calls that return at once:
-         the invariant [MInv], its preservation, the explicit linearization order [lin_order]
-     §3  [one_doc_writers_readers_linearizable], [readers_never_partial]
+   What changes for the readers: "present stays present" is gone.  A retrieve_metadata that saw the
+   document present (first or second test) and then finds it removed raises FileNotFoundError,
+   where the sequential order — the reader placed at its last operation, after the delete — gives
+   the not-found ValueError.  This is the relaxed reader clause of the menus (LinNF.v, family R):
+   the two not-found errors of a reader are identified ([nfn]; for the call lists of §3 this is
+   LinNF.nf_norm_one), nothing else is.  The invariant [MInv], the order [lin_order] (each writer /
+   deleter at its Rename / Remove, or at its last operation if it commits nothing; each reader at
+   its last operation) are those of OneDocReaders.v with the outcomes of readers compared through
+   [nfn]. *)
+From HS Require Import Base PyVal FS Ops Sched Spec SeqLemmas Bracket SchedCV Mutex Indep IndepMeta OneDoc
+  OneDocReaders.
+From HS Require LinNF.
 
-   The linearization order [lin_order]: every thread is placed at its first Rename / Remove
-   operation if it performs one, and otherwise at its LAST operation — a writer at its commit
-   point, a reader at its last step (the [Read], or the test that answered "absent").  A writer's
-   Rename lies inside its critical section and a second writer cannot start before the first gave
-   the lock back (the invariant [MInv]: at most one writer is inside), so the writers appear in it
-   in the order in which they acquired the lock; that remark is not stated as a separate lemma.
-
-   Scope.  Writers are store_metadata calls only: a delete_metadata makes the document absent
-   again, and then a reader that saw it present raises FileNotFoundError where every sequential
-   order gives the not-found ValueError (family R of the menus, LinNF.v) — the clause
-   "present stays present" of [RState] is what fails; done in OneDocDel.v, with that clause dropped
-   and the reader's two not-found errors identified. *)
-From HS Require Import Base PyVal FS Ops Sched Spec SeqLemmas Bracket SchedCV Mutex Indep IndepMeta OneDoc.
-
-(* ====================================================================================== *)
-(* §1  inside the critical section: before and after the commit point                      *)
-(* ====================================================================================== *)
-
-Definition is_commit (o : op) : bool :=
-  match o with Rename _ _ | Remove _ => true | _ => false end.
-
-Section Doc.
-  Variable p : pid.
-  Variable f : fmt.
-  Notation a := (AMeta p f).
-  Notation L := (doc_lock p f).
-
-  Definition doc (w : world) : option fcontent := lookup a (fs w).
-
-  (* what a commit may make of the document *)
-  Variable Vn : option fcontent -> Prop.
-
-  (* after the commit: give the lock back and return *)
-  Definition PostW {B} (m : prog B) : Prop :=
-    match m with
-    | Vis (Release cls x) k => (cls, x) = L /\ exists r, k AUnit = Ret r
-    | _ => False
-    end.
-
-  (* thread t, in world w, is inside the critical section and has not committed: every operation
-     up to the commit leaves the document alone and is no lock operation; the commit is a
-     Rename / Remove that makes the document one of Vn and is followed by the Release at once; a
-     Release without a commit ends the call as well *)
-  Fixpoint Pre {B} (t : nat) (m : prog B) (w : world) : Prop :=
-    match m with
-    | Ret _ => False
-    | Bad => False
-    | Vis o k =>
-        if lockop o then PostW (Vis o k)
-        else match exec_op t o w with
-             | None => False
-             | Some (x, w') =>
-                 if is_commit o then Vn (doc w') /\ PostW (k x)
-                 else doc w' = doc w /\ Pre t (k x) w'
-             end
-    end.
-
-  (* the same for a part of the body: Qn for a return without commit, Qc for a return right
-     after the commit *)
-  Fixpoint PreK {B} (t : nat) (m : prog B) (w : world)
-           (Qn : world -> B -> Prop) (Qc : B -> Prop) : Prop :=
-    match m with
-    | Ret r => Qn w r
-    | Bad => False
-    | Vis o k =>
-        lockop o = false /\
-        match exec_op t o w with
-        | None => False
-        | Some (x, w') =>
-            if is_commit o then Vn (doc w') /\ exists r, k x = Ret r /\ Qc r
-            else doc w' = doc w /\ PreK t (k x) w' Qn Qc
-        end
-    end.
-
-  Lemma PreK_bind : forall B C t (m : prog B) (g : B -> prog C) w Qn Qc,
-    PreK t m w (fun w' r => PreK t (g r) w' Qn Qc) (fun r => exists r', g r = Ret r' /\ Qc r') ->
-    PreK t (bind m g) w Qn Qc.
-  Proof.
-    induction m as [r|o k IH|]; simpl; intros g w Qn Qc H; auto.
-    destruct H as [Hl H]. split; [exact Hl|].
-    destruct (exec_op t o w) as [[x w']|]; [|contradiction].
-    destruct (is_commit o).
-    - destruct H as (Hv & r & Hr & r' & Hg & Hq). split; [exact Hv|].
-      exists r'. rewrite Hr. simpl. auto.
-    - destruct H as [Hd H]. split; [exact Hd|]. apply IH. exact H.
-  Qed.
-
-  Lemma PreK_mbind : forall B C t (m : M B) (g : B -> M C) w Qn Qc,
-    PreK t m w
-      (fun w' r => match r with Val x => PreK t (g x) w' Qn Qc | Exn e => Qn w' (Exn e) end)
-      (fun r => match r with Val x => exists r', g x = Ret r' /\ Qc r' | Exn e => Qc (Exn e) end) ->
-    PreK t (mbind m g) w Qn Qc.
-  Proof.
-    intros B C t m g w Qn Qc H. unfold mbind. apply PreK_bind.
-    revert w H. induction m as [r|o k IH|]; simpl; intros w H; auto.
-    - destruct r; simpl; auto.
-    - destruct H as [Hl H]. split; [exact Hl|].
-      destruct (exec_op t o w) as [[x w']|]; [|contradiction].
-      destruct (is_commit o).
-      + destruct H as (Hv & r & Hr & Hq). split; [exact Hv|]. exists r. split; [exact Hr|].
-        destruct r; eauto.
-      + destruct H as [Hd H]. split; [exact Hd|]. apply IH. exact H.
-  Qed.
-
-  (* the body, then the Release of try_finally *)
-  Lemma Pre_of_PreK : forall B C t (m : prog B) (h : B -> prog C) w,
-    PreK t m w (fun _ _ => True) (fun _ => True) -> (forall r, PostW (h r)) ->
-    Pre t (bind m h) w.
-  Proof.
-    induction m as [r|o k IH|]; simpl; intros h w H Hh.
-    - specialize (Hh r). destruct (h r) as [|o k|]; simpl in *; try contradiction.
-      destruct o; simpl in *; try contradiction. exact Hh.
-    - destruct H as [Hl H]. rewrite Hl.
-      destruct (exec_op t o w) as [[x w']|]; [|contradiction].
-      destruct (is_commit o).
-      + destruct H as (Hv & r & Hr & _). split; [exact Hv|]. rewrite Hr. simpl. apply Hh.
-      + destruct H as [Hd H]. split; [exact Hd|]. apply IH; auto.
-    - contradiction.
-  Qed.
-
-  Lemma Pre_Vis : forall B t (m : prog B) w, Pre t m w -> exists o k, m = Vis o k.
-  Proof. intros B t m w H. destruct m; simpl in H; try contradiction. eauto. Qed.
-
-  Lemma PostW_Vis : forall B (m : prog B), PostW m ->
-    exists k r, m = Vis (Release LMeta (IDoc a)) k /\ k AUnit = Ret r.
-  Proof.
-    intros B m H. destruct m as [|o k|]; simpl in H; try contradiction.
-    destruct o; try contradiction. destruct H as [E [r Hr]]. inversion E; subst. eauto.
-  Qed.
-
-  (* writing the chunks of a temp file *)
-  Lemma PreK_write_chunks : forall n t ar t' j w b n0 i (Qn : world -> outcome unit -> Prop) Qc,
-    lookup (ATmp ar t' j) (fs w) = Some (CData b n0 i) ->
-    (forall w', lookup (ATmp ar t' j) (fs w') = Some (CData b n0 (i + n)) -> doc w' = doc w ->
-                locks w' = locks w -> Qn w' (Val tt)) ->
-    PreK t (write_chunks (ATmp ar t' j) n) w Qn Qc.
-  Proof.
-    induction n as [|n IH]; intros t ar t' j w b n0 i Qn Qc Hl HQ.
-    - simpl. apply HQ; auto. rewrite Nat.add_0_r. exact Hl.
-    - cbn [write_chunks]. apply PreK_mbind. simpl. split; [reflexivity|]. rewrite Hl. simpl.
-      split; [unfold doc; simpl; apply lookup_update_neq; discriminate|].
-      eapply IH.
-      + simpl. apply lookup_update_eq.
-      + intros w' H1 H2 H3. apply HQ.
-        * rewrite H1. f_equal. f_equal. lia.
-        * rewrite H2. unfold doc. simpl. apply lookup_update_neq. discriminate.
-        * rewrite H3. reflexivity.
-  Qed.
-End Doc.
-
-Arguments doc p f w /.
-
-(* store_metadata: Acquire, then [Pre] from EVERY world; its commit stores the complete version *)
-Lemma store_metadata_pre : forall p f (Vn : option fcontent -> Prop) s v n,
-  (s <> SrcMissing -> Vn (Some (CData v n n))) ->
-  exists k, api (CStoreMeta p f s v n) = Vis (Acquire LMeta (IDoc (AMeta p f))) k /\
-            forall t w, Pre p f Vn t (k AUnit) w.
-Proof.
-  intros p f Vn s v n HV0. eexists. split; [reflexivity|]. intros t w.
-  cbn beta iota. change (Pre p f Vn t (try_finally
-     (open_source s ;;;
-      t0 <- mktmp ArMeta (CData v n 0) ;;
-      write_chunks t0 n ;;;
-      r <- catch (unit_op (MkDirs (AMeta p f)) ;;; unit_op (Rename t0 (AMeta p f))) ;;
-      match r with
-      | Val _ => ret (VPath (AMeta p f))
-      | Exn e => unit_op (Remove t0) ;;; raise e
-      end) (release LMeta (IDoc (AMeta p f)))) w).
-  unfold try_finally. apply Pre_of_PreK.
-  2:{ intros r. simpl. split; [reflexivity|]. eexists. reflexivity. }
-  apply PreK_mbind.
-  assert (Hrest : Vn (Some (CData v n n)) -> forall w1, doc p f w1 = doc p f w1 ->
-    PreK p f Vn t
-      (t0 <- mktmp ArMeta (CData v n 0) ;;
-       write_chunks t0 n ;;;
-       r <- catch (unit_op (MkDirs (AMeta p f)) ;;; unit_op (Rename t0 (AMeta p f))) ;;
-       match r with
-       | Val _ => ret (VPath (AMeta p f))
-       | Exn e => unit_op (Remove t0) ;;; raise e
-       end) w1 (fun _ _ => True) (fun _ => True)).
-  { intros HV w1 _. apply PreK_mbind. simpl. split; [reflexivity|].
-    split; [apply lookup_update_neq; discriminate|].
-    apply PreK_mbind. unfold fresh_tmp.
-    eapply PreK_write_chunks with (i := 0).
-    - simpl. apply lookup_update_eq.
-    - intros w' H1 H2 H3. simpl in H1.
-      simpl. split; [reflexivity|]. split; [reflexivity|]. split; [reflexivity|].
-      rewrite H1. simpl. split.
-      + rewrite lookup_update_eq. exact HV.
-      + eexists. split; [reflexivity|]. exact I. }
-  destruct s; simpl.
-  - split; [reflexivity|]. split; [reflexivity|]. apply Hrest; [apply HV0; discriminate | reflexivity].
-  - exact I.
-  - apply Hrest; [apply HV0; discriminate | reflexivity].
-Qed.
+(* a reader's FileNotFoundError read as the not-found ValueError *)
+Definition nfn (r : outcome value) : outcome value :=
+  match r with Exn EFileNotFound => Exn EValueError | _ => r end.
 
 (* ====================================================================================== *)
 (* §2  pools of writers, readers and calls that return at once                             *)
@@ -223,9 +35,10 @@ Section Pool.
   Notation a := (AMeta p f).
   Notation L := (doc_lock p f).
   Variable Vn : option fcontent -> Prop.
-  Hypothesis HVn : forall d, Vn d -> d <> None.
   Variable ps : list (prog (outcome value)).
   Variable w0 : world.
+  (* which threads are readers *)
+  Variable isrd : nat -> bool.
 
   Definition reader_prog : M value := retrieve_metadata p f.
 
@@ -236,17 +49,53 @@ Section Pool.
   Hypothesis Hshape : forall i q, nth_error ps i = Some q ->
     (exists r, q = Ret r) \/ q = reader_prog \/ wprog i q.
   Hypothesis Hl0 : locks w0 = [].
+  Hypothesis Hisrd : forall i, isrd i = true <-> nth_error ps i = Some reader_prog.
+
+  (* a reader's outcome, its FileNotFoundError read as the not-found ValueError *)
+  Definition nrm (j : nat) (r : outcome value) : outcome value := if isrd j then nfn r else r.
+  Definition tres (c : cfg) (j : nat) : option (outcome value) :=
+    match thread_result ps c j with Some r => Some (nrm j r) | None => None end.
+
+  Lemma nrm_reader : forall j r, nth_error ps j = Some reader_prog -> nrm j r = nfn r.
+  Proof. intros j r H. unfold nrm. rewrite (proj2 (Hisrd j) H). reflexivity. Qed.
+
+  Lemma nrm_other : forall j q r, nth_error ps j = Some q -> q <> reader_prog -> nrm j r = r.
+  Proof.
+    intros j q r H Hq. unfold nrm. destruct (isrd j) eqn:E; [|reflexivity].
+    apply Hisrd in E. rewrite H in E. inversion E. contradiction.
+  Qed.
+
+  Lemma tres_upd_neq : forall c j x w' i, i <> j ->
+    tres (upd_nth j x (fst c), w') i = tres c i.
+  Proof. intros. unfold tres. rewrite thread_result_upd_neq by assumption. reflexivity. Qed.
+
+  Lemma tres_upd_notin : forall c j x w' ord, ~ In j ord ->
+    map (tres (upd_nth j x (fst c), w')) ord = map (tres c) ord.
+  Proof.
+    intros c j x w' ord Hn. apply map_ext_in. intros i Hi. apply tres_upd_neq.
+    intros ->. contradiction.
+  Qed.
 
   (* the versions of the document: the initial one and what the commits make of it *)
   Definition Vset (d : option fcontent) : Prop := d = doc p f w0 \/ Vn d.
 
-  (* a reader under way: it has seen the document present once or twice, and it still is *)
+  (* a reader under way: it has seen the document present once or twice (a delete may have removed
+     it since) *)
   Definition RState (h : list ans) (d : option fcontent) : Prop :=
-    h = [] \/ ((h = [ABool true] \/ h = [ABool true; ABool true]) /\ d <> None).
+    h = [] \/ h = [ABool true] \/ h = [ABool true; ABool true].
 
   (* what a reader may return *)
   Definition Rres (r : outcome value) : Prop :=
-    r = Exn EValueError \/ exists d, r = Val (VBytes d) /\ Vset (Some d).
+    r = Exn EValueError \/ r = Exn EFileNotFound \/ exists d, r = Val (VBytes d) /\ Vset (Some d).
+
+  Lemma nfn_Rres : forall r d, Vset d -> nfn r = rd_result d -> Rres r.
+  Proof.
+    intros r d HV H. unfold Rres. destruct d as [x|]; simpl in H.
+    - right. right. exists x. split; [|exact HV].
+      destruct r as [v|e]; simpl in H; [exact H|destruct e; discriminate H].
+    - destruct r as [v|e]; simpl in H; [discriminate H|].
+      destruct e; try discriminate H; auto.
+  Qed.
 
   Definition rd_result (d : option fcontent) : outcome value :=
     match d with None => Exn EValueError | Some c => Val (VBytes c) end.
@@ -261,23 +110,25 @@ Section Pool.
     RState h (doc p f w) -> resume reader_prog (rev h) = Some (Vis o k) ->
     exec_op t o w = Some (x, w') ->
     w' = w /\ is_commit o = false /\
-    ((isret (k x) = false /\ RState (x :: h) (doc p f w)) \/ k x = Ret (rd_result (doc p f w))).
+    ((isret (k x) = false /\ RState (x :: h) (doc p f w)) \/
+     exists r, k x = Ret r /\ nfn r = rd_result (doc p f w)).
   Proof.
     intros h t o k x w w' HS Hrs He. unfold reader_prog, retrieve_metadata in Hrs.
-    destruct HS as [->|[[->| ->] Hd]]; simpl in Hrs; inversion Hrs; subst o k; clear Hrs;
-      simpl in He; simpl; try (simpl in Hd).
+    destruct HS as [->|[->| ->]]; simpl in Hrs; inversion Hrs; subst o k; clear Hrs;
+      simpl in He; simpl.
     - destruct (lookup a (fs w)) as [d|] eqn:E; inversion He; subst x w'; simpl.
-      + split; auto. split; auto. left. split; auto. right. split; auto; discriminate.
-      + split; auto.
-    - destruct (lookup a (fs w)) as [d|] eqn:E; [|contradiction Hd; reflexivity].
-      inversion He; subst x w'; simpl.
-      split; auto. split; auto. left. split; auto. right. split; auto; discriminate.
-    - destruct (lookup a (fs w)) as [d|] eqn:E; [|contradiction Hd; reflexivity].
-      inversion He; subst x w'; simpl. auto.
+      + split; auto. split; auto. left. split; auto. right. left. reflexivity.
+      + split; auto. split; auto. right. eexists. split; reflexivity.
+    - destruct (lookup a (fs w)) as [d|] eqn:E; inversion He; subst x w'; simpl.
+      + split; auto. split; auto. left. split; auto. right. right. reflexivity.
+      + split; auto. split; auto. right. eexists. split; reflexivity.
+    - destruct (lookup a (fs w)) as [d|] eqn:E; inversion He; subst x w'; simpl.
+      + split; auto. split; auto. right. eexists. split; reflexivity.
+      + split; auto. split; auto. right. eexists. split; reflexivity.
   Qed.
 
-  Lemma RState_mono : forall h d d', RState h d -> (d <> None -> d' <> None) -> RState h d'.
-  Proof. intros h d d' [H|[H Hd]] Hm; [left; exact H | right; split; auto]. Qed.
+  Lemma RState_mono : forall h d d', RState h d -> RState h d'.
+  Proof. intros h d d' H. exact H. Qed.
 
   Lemma wprog_not_reader : forall t, ~ wprog t reader_prog.
   Proof. intros t (k & E & _). unfold reader_prog, retrieve_metadata in E. simpl in E. discriminate. Qed.
@@ -285,8 +136,8 @@ Section Pool.
   (* results with the committed writer's result known in advance *)
   Definition resx (c : cfg) (x : option (nat * outcome value)) (j : nat) : option (outcome value) :=
     match x with
-    | Some (i, r) => if Nat.eqb j i then Some r else thread_result ps c j
-    | None => thread_result ps c j
+    | Some (i, r) => if Nat.eqb j i then Some r else tres c j
+    | None => tres c j
     end.
 
   Lemma resx_upd_notin : forall c j y w' X ord, ~ In j ord ->
@@ -295,7 +146,7 @@ Section Pool.
     intros c j y w' X ord Hn. apply map_ext_in. intros i Hi.
     assert (i <> j) by (intros ->; contradiction).
     unfold resx. destruct X as [[i0 r]|]; [destruct (Nat.eqb i i0); auto|];
-      apply thread_result_upd_neq; auto.
+      apply tres_upd_neq; auto.
   Qed.
 
   Lemma residual_upd_neq : forall (c : cfg) j y w' i, i <> j ->
@@ -324,6 +175,14 @@ Section Pool.
   Proof.
     intros c j q hist o k x w' Hp Hrs Hj. unfold residual. cbn [fst].
     rewrite Hp, nth_error_upd_nth_eq by exact Hj. apply (resume_step _ _ _ _ x Hrs).
+  Qed.
+
+  Lemma tres_after : forall (c : cfg) j q hist o k x w',
+    nth_error ps j = Some q -> resume q (rev hist) = Some (Vis o k) -> j < length (fst c) ->
+    tres (upd_nth j (x :: hist) (fst c), w') j =
+    match k x with Ret r => Some (nrm j r) | _ => None end.
+  Proof.
+    intros. unfold tres. erewrite tr_after by eassumption. destruct (k x); reflexivity.
   Qed.
 
   (* ---------- the linearization order ---------- *)
@@ -383,9 +242,9 @@ Section Pool.
     exists w1 rs,
       seq_runp _ ps ord w0 = Some (w1, rs) /\ locks w1 = [] /\ doc p f w1 = doc p f (snd c) /\
       match act with
-      | ANone => snd c = w1 /\ map (thread_result ps c) ord = map Some rs
+      | ANone => snd c = w1 /\ map (tres c) ord = map Some rs
       | APre i =>
-          ~ In i ord /\ map (thread_result ps c) ord = map Some rs /\
+          ~ In i ord /\ map (tres c) ord = map Some rs /\
           exists q hist m,
             nth_error ps i = Some q /\ q <> reader_prog /\ nth_error (fst c) i = Some hist /\
             Solo i q w1 (rev hist) (snd c) m /\ Pre p f Vn i m (snd c) /\ locks (snd c) = [L]
@@ -438,9 +297,9 @@ Section Pool.
       exists w1, rs. split; [exact Hseq|]. split; [exact Hl1|]. split; [exact Hd1|].
       destruct act as [|i|i]; simpl in Hna.
       + destruct Hact as [E Hres]. split; [exact E|].
-        rewrite results_upd_notin by exact Hnin. exact Hres.
+        rewrite tres_upd_notin by exact Hnin. exact Hres.
       + destruct Hact as (Hni & Hres & q & hi & m & Hq & Hqr & Hhi & Hrest).
-        split; [exact Hni|]. split; [rewrite results_upd_notin by exact Hnin; exact Hres|].
+        split; [exact Hni|]. split; [rewrite tres_upd_notin by exact Hnin; exact Hres|].
         exists q, hi, m. split; [exact Hq|]. split; [exact Hqr|]. split; [|exact Hrest].
         rewrite nth_error_upd_nth_neq; [exact Hhi | intros ->; apply Hna; reflexivity].
       + destruct Hact as (Hi & Hnr' & Ew & Hlk & r & k2 & Hres2 & Hk2 & Hmap).
@@ -448,8 +307,10 @@ Section Pool.
         exists r, k2. split.
         { rewrite residual_upd_neq; [exact Hres2 | intros ->; apply Hna; reflexivity]. }
         split; [exact Hk2|]. rewrite resx_upd_notin by exact Hnin. exact Hmap.
-    - rewrite Hret in *. cbn [isret]. exists (ord ++ [j]). split; [|reflexivity].
+    - destruct Hret as (r0 & Hret & Hnf). rewrite Hret in *. cbn [isret]. exists (ord ++ [j]). split; [|reflexivity].
       set (r := rd_result (doc p f (snd c))) in *.
+      pose proof (tres_after c j _ hist o k x (snd c) Hp Hrs Hj) as Htr'.
+      rewrite Hret, (nrm_reader j r0 Hp), Hnf in Htr'.
       assert (Hrun : seq_runp _ ps (ord ++ [j]) w0 = Some (w1, rs ++ [r])).
       { eapply seq_runp_snoc; [exact Hseq | exact Hp|]. rewrite reader_run, Hd1. reflexivity. }
       unfold MInv. cbn [fst snd].
@@ -461,23 +322,22 @@ Section Pool.
         rewrite nth_error_upd_nth_neq by exact Hne. apply Hoth; auto.
         intros Hin. apply Hni. apply in_or_app. left. exact Hin. }
       split; [exact HV|]. split.
-      { intros j0 r0 Hp0 Hr0. destruct (Nat.eq_dec j0 j) as [->|Hne].
-        - rewrite Htr in Hr0. inversion Hr0; subst r0. unfold Rres, r, rd_result.
-          destruct (doc p f (snd c)) as [d|] eqn:Ed; [right; exists d; split; auto | left; reflexivity].
+      { intros j0 r1 Hp0 Hr0. destruct (Nat.eq_dec j0 j) as [->|Hne].
+        - rewrite Htr in Hr0. inversion Hr0; subst r1. eapply nfn_Rres; [exact HV|exact Hnf].
         - rewrite thread_result_upd_neq in Hr0 by exact Hne. eapply HR; eauto. }
       exists w1, (rs ++ [r]). split; [exact Hrun|]. split; [exact Hl1|]. split; [exact Hd1|].
       destruct act as [|i|i]; simpl in Hna.
       + destruct Hact as [E Hres]. split; [exact E|]. rewrite !map_app. f_equal.
-        * rewrite results_upd_notin by exact Hnin. exact Hres.
-        * simpl. rewrite Htr. reflexivity.
+        * rewrite tres_upd_notin by exact Hnin. exact Hres.
+        * simpl. rewrite Htr'. reflexivity.
       + destruct Hact as (Hni & Hres & q & hi & m & Hq & Hqr & Hhi & Hrest).
         split.
         { intros Hin. apply in_app_or in Hin. destruct Hin as [Hin|[E|[]]]; [contradiction|].
           subst. apply Hna. reflexivity. }
         split.
         { rewrite !map_app. f_equal.
-          - rewrite results_upd_notin by exact Hnin. exact Hres.
-          - simpl. rewrite Htr. reflexivity. }
+          - rewrite tres_upd_notin by exact Hnin. exact Hres.
+          - simpl. rewrite Htr'. reflexivity. }
         exists q, hi, m. split; [exact Hq|]. split; [exact Hqr|]. split; [|exact Hrest].
         rewrite nth_error_upd_nth_neq; [exact Hhi | intros ->; apply Hna; reflexivity].
       + destruct Hact as (Hi & Hnr' & Ew & Hlk & r2 & k2 & Hres2 & Hk2 & Hmap).
@@ -488,7 +348,7 @@ Section Pool.
         * rewrite resx_upd_notin by exact Hnin. exact Hmap.
         * simpl. unfold resx. destruct (Nat.eqb j i) eqn:E.
           { apply Nat.eqb_eq in E. subst. exfalso. apply Hna. reflexivity. }
-          rewrite Htr. reflexivity.
+          rewrite Htr'. reflexivity.
   Qed.
 
   Lemma doc_set_locks : forall w l, doc p f (set_locks w l) = doc p f w.
@@ -510,8 +370,9 @@ Section Pool.
     assert (Hjh : j < length (fst c)) by (rewrite Hlen; exact Hj).
     rewrite (lnote_eq c j q hist o k x w' ord Hp Hh Hrs Hjh).
     pose proof (tr_after c j q hist o k x w' Hp Hrs Hjh) as Htr.
-    assert (Hnotret : thread_result ps c j = None).
-    { unfold thread_result. rewrite Hp, Hh, Hrs. reflexivity. }
+    pose proof (tres_after c j q hist o k x w' Hp Hrs Hjh) as Htr'.
+    assert (Hnotret : tres c j = None).
+    { unfold tres, thread_result. rewrite Hp, Hh, Hrs. reflexivity. }
     assert (Hfree : ~ In j ord -> aidx act <> Some j ->
               (q = reader_prog /\ RState hist (doc p f (snd c))) \/
               ((hist = [] /\ o = Acquire LMeta (IDoc a) /\ forall w, Pre p f Vn j (k AUnit) w) /\
@@ -525,12 +386,11 @@ Section Pool.
         + intros E. rewrite E in Hw. exact (wprog_not_reader _ Hw).
       - left. rewrite Hp in Hq. inversion Hq. split; auto. }
     assert (Hothers : forall (y : list ans) w2 act2 ord2,
-              (doc p f (snd c) <> None -> doc p f w2 <> None) ->
               (forall i, ~ In i ord2 -> aidx act2 <> Some i -> i <> j /\ ~ In i ord /\ aidx act <> Some i) ->
               forall i, i < length ps -> ~ In i ord2 -> aidx act2 <> Some i ->
               exists h, nth_error (upd_nth j y (fst c)) i = Some h /\
                 (h = [] \/ (nth_error ps i = Some reader_prog /\ RState h (doc p f w2)))).
-    { intros y w2 act2 ord2 Hm Hsel i Hi Hni Hai. destruct (Hsel i Hni Hai) as (Hne & Hni' & Hai').
+    { intros y w2 act2 ord2 Hsel i Hi Hni Hai. destruct (Hsel i Hni Hai) as (Hne & Hni' & Hai').
       rewrite nth_error_upd_nth_neq by exact Hne.
       destruct (Hoth i Hi Hni' Hai') as (h & H1 & H2). exists h. split; [exact H1|].
       destruct H2 as [H2|[H2 H3]]; [left; exact H2 | right; split; [exact H2|]].
@@ -555,11 +415,11 @@ Section Pool.
         rewrite Ek. cbn [is_commit isret orb andb]. exists ord, (APre j). split; [|reflexivity].
         unfold MInv. cbn [fst snd].
         split; [rewrite upd_nth_length; exact Hlen|]. split; [exact Hnd|]. split; [exact Hlt|]. split.
-        { apply Hothers; [auto|]. intros i Hni Hai. simpl in Hai.
+        { apply Hothers. intros i Hni Hai. simpl in Hai.
           repeat split; auto; try discriminate; try congruence. }
         split; [exact HV|]. split; [apply HR'; exact Hqr|].
         exists (snd c), rs. split; [exact Hseq|]. split; [exact Hl1|]. split; [reflexivity|].
-        split; [exact Hnin|]. split; [rewrite results_upd_notin by exact Hnin; exact Hres|].
+        split; [exact Hnin|]. split; [rewrite tres_upd_notin by exact Hnin; exact Hres|].
         exists q, [AUnit], (k AUnit). split; [exact Hp|]. split; [exact Hqr|]. split.
         { apply nth_error_upd_nth_eq. exact Hjh. }
         split; [|split; [apply Hk | reflexivity]].
@@ -584,7 +444,7 @@ Section Pool.
           split; [rewrite upd_nth_length; exact Hlen|]. split; [apply NoDup_snoc; auto|]. split.
           { intros i Hi. apply in_app_or in Hi. destruct Hi as [Hi|[<-|[]]]; auto. }
           split.
-          { apply Hothers; [auto|]. intros i Hni' _.
+          { apply Hothers. intros i Hni' _.
             assert (i <> j) by (intros ->; apply Hni'; apply in_or_app; right; left; reflexivity).
             repeat split; auto.
             - intros Hin. apply Hni'. apply in_or_app. left. exact Hin.
@@ -594,8 +454,8 @@ Section Pool.
           { eapply seq_runp_snoc; eauto. eapply Solo_run. exact Hsolo'. }
           split; [reflexivity|]. split; [reflexivity|]. split; [reflexivity|].
           rewrite !map_app. f_equal.
-          { rewrite results_upd_notin by exact Hnin. exact Hres. }
-          simpl. rewrite Htr. reflexivity.
+          { rewrite tres_upd_notin by exact Hnin. exact Hres. }
+          simpl. rewrite Htr', (nrm_other j q _ Hp Hqr). reflexivity.
         * rewrite He in Hpre. destruct (is_commit o) eqn:Ec.
           -- (* the commit *)
              destruct Hpre as [Hvn Hpost]. change (Vn (doc p f w')) in Hvn. destruct (PostW_Vis _ _ _ _ Hpost) as (k2 & r & Ek & Hk2).
@@ -608,7 +468,7 @@ Section Pool.
              split; [rewrite upd_nth_length; exact Hlen|]. split; [apply NoDup_snoc; auto|]. split.
              { intros i Hi. apply in_app_or in Hi. destruct Hi as [Hi|[<-|[]]]; auto. }
              split.
-             { apply Hothers; [intros _; apply HVn; exact Hvn|]. intros i Hni' _.
+             { apply Hothers. intros i Hni' _.
                assert (i <> j) by (intros ->; apply Hni'; apply in_or_app; right; left; reflexivity).
                repeat split; auto.
                - intros Hin. apply Hni'. apply in_or_app. left. exact Hin.
@@ -624,18 +484,18 @@ Section Pool.
              ++ rewrite <- Hres. apply map_ext_in. intros i0 Hi0. unfold resx.
                 assert (i0 <> j) by (intros ->; contradiction).
                 destruct (Nat.eqb i0 j) eqn:E; [apply Nat.eqb_eq in E; contradiction|].
-                apply thread_result_upd_neq. auto.
+                apply tres_upd_neq. auto.
              ++ simpl. unfold resx. rewrite Nat.eqb_refl. reflexivity.
           -- (* an operation before the commit *)
              destruct Hpre as [Hdoc Hpre']. change (doc p f w' = doc p f (snd c)) in Hdoc. destruct (Pre_Vis _ _ _ _ _ _ _ Hpre') as (o2 & k2 & Ek).
              rewrite Ek. cbn [isret orb]. exists ord, (APre j). split; [|reflexivity].
              unfold MInv. cbn [fst snd].
              split; [rewrite upd_nth_length; exact Hlen|]. split; [exact Hnd|]. split; [exact Hlt|]. split.
-             { apply Hothers; [rewrite Hdoc; auto|]. intros i Hni' Hai. simpl in Hai.
+             { apply Hothers. intros i Hni' Hai. simpl in Hai.
                repeat split; auto; congruence. }
              split; [rewrite Hdoc; exact HV|]. split; [apply HR'; exact Hqr|].
              exists w1, rs. split; [exact Hseq|]. split; [exact Hl1|]. split; [rewrite Hdoc; exact Hd1|].
-             split; [exact Hnin|]. split; [rewrite results_upd_notin by exact Hnin; exact Hres|].
+             split; [exact Hnin|]. split; [rewrite tres_upd_notin by exact Hnin; exact Hres|].
              exists q, (x :: hist), (k x). split; [exact Hp|]. split; [exact Hqr|]. split.
              { apply nth_error_upd_nth_eq. exact Hjh. }
              split; [exact Hsolo'|]. split; [exact Hpre'|].
@@ -657,15 +517,16 @@ Section Pool.
         rewrite Hex. cbn [negb andb]. exists ord, ANone. split; [|reflexivity].
         unfold MInv. cbn [fst snd].
         split; [rewrite upd_nth_length; exact Hlen|]. split; [exact Hnd|]. split; [exact Hlt|]. split.
-        { apply Hothers; [auto|]. intros i Hni' _.
+        { apply Hothers. intros i Hni' _.
           assert (i <> j) by (intros ->; contradiction). repeat split; auto. simpl. congruence. }
         split; [exact HV|]. split.
         { apply HR'. intros E. apply Hnr. rewrite Hp, E. reflexivity. }
         exists w1, rs. split; [exact Hseq|]. split; [exact Hl1|]. split; [rewrite Ew; reflexivity|].
         split; [symmetry; exact Ew|]. rewrite <- Hmap. apply map_ext_in. intros i0 _. unfold resx.
         destruct (Nat.eqb i0 j) eqn:E.
-        * apply Nat.eqb_eq in E. subst i0. exact Htr.
-        * apply Nat.eqb_neq in E. apply thread_result_upd_neq. exact E.
+        * apply Nat.eqb_eq in E. subst i0. rewrite Htr'. f_equal.
+          apply (nrm_other j q r Hp). intros E. apply Hnr. rewrite Hp, E. reflexivity.
+        * apply Nat.eqb_neq in E. apply tres_upd_neq. exact E.
       + assert (Hnin : ~ In j ord).
         { intros Hin. destruct (map_some_in _ _ _ _ _ _ Hmap Hin) as [r' Hr']. unfold resx in Hr'.
           destruct (Nat.eqb j i) eqn:E; [apply Nat.eqb_eq in E; congruence | congruence]. }
@@ -701,12 +562,8 @@ Section Pool.
 
   Lemma RState_Vis : forall h d, RState h d -> exists o k, resume reader_prog (rev h) = Some (Vis o k).
   Proof.
-    intros h d [->|[[->| ->] _]]; unfold reader_prog, retrieve_metadata; simpl; eauto.
+    intros h d [->|[->| ->]]; unfold reader_prog, retrieve_metadata; simpl; eauto.
   Qed.
-
-  (* the threads outside a list *)
-  Definition rest_of (n : nat) (l : list nat) : list nat :=
-    filter (fun i => negb (existsb (Nat.eqb i) l)) (seq 0 n).
 
   Theorem writers_readers_pool : forall sched c,
     pool_ok ps -> refs_typed (fs w0) ->
@@ -718,7 +575,7 @@ Section Pool.
       NoDup ord /\ (forall i, In i ord <-> i < length ps) /\
       seq_runp _ ps ord w0 = Some (w', rs) /\
       snd c = w' /\
-      map (thread_result ps c) ord = map Some rs.
+      map (tres c) ord = map Some rs.
   Proof.
     intros sched c Hok Hrt He Hst.
     assert (Hfin : finished ps c = true /\ locks (snd c) = [] /\ refs_typed (fs (snd c))).
@@ -762,12 +619,14 @@ Section Pool.
       - exfalso. inversion Hq; subst q. destruct (RState_Vis _ _ HS) as (o & k & E).
         rewrite E in Hr. discriminate. }
     assert (Hrest : forall l, (forall i, In i l -> In i (rest_of (length ps) ord)) ->
-              exists rs2, seq_runp _ ps l w1 = Some (w1, rs2) /\ map (thread_result ps c) l = map Some rs2).
+              exists rs2, seq_runp _ ps l w1 = Some (w1, rs2) /\ map (tres c) l = map Some rs2).
     { induction l as [|i l IH]; intros Hl.
       - exists []. auto.
       - destruct (Hin i (Hl i (or_introl eq_refl))) as (r & Hp & Hr).
         destruct IH as (rs2 & H1 & H2); [intros y Hy; apply Hl; right; exact Hy|].
-        exists (r :: rs2). simpl. rewrite Hp. simpl. rewrite H1, Hr, H2. auto. }
+        exists (r :: rs2). simpl. rewrite Hp. simpl. rewrite H1, H2. unfold tres. rewrite Hr.
+        rewrite (nrm_other i (Ret r) r Hp) by (unfold reader_prog, retrieve_metadata; simpl; discriminate).
+        auto. }
     destruct (Hrest (rest_of (length ps) ord)) as (rs2 & Hs2 & Hr2); [auto|].
     exists w1, (rs ++ rs2). cbv zeta. split; [|split; [|split; [|split]]].
     - apply NoDup_app_disj; auto.
@@ -788,50 +647,105 @@ Section Pool.
 End Pool.
 
 (* ====================================================================================== *)
-(* §3  store_metadata and retrieve_metadata calls on one document                          *)
+(* §3  store_metadata, retrieve_metadata and delete_metadata calls on one document         *)
 (* ====================================================================================== *)
 
-(* the calls of the pools: store_metadata and retrieve_metadata on ONE document (p, f); calls that
-   the argument checks reject (they perform no operation) may be among them *)
-Definition wr_call (p : pid) (f : fmt) (c : call) : Prop :=
+(* delete_metadata p (Some f): Acquire, then [Pre] from EVERY world; its commit makes the document
+   absent *)
+Lemma delete_metadata_pre : forall p f (Vn : option fcontent -> Prop),
+  Vn None ->
+  exists k, api (CDelMeta p (Some f)) = Vis (Acquire LMeta (IDoc (AMeta p f))) k /\
+            forall t w, Pre p f Vn t (k AUnit) w.
+Proof.
+  intros p f Vn HV. eexists. split; [reflexivity|]. intros t w.
+  cbn beta iota. simpl.
+  destruct (lookup (AMeta p f) (fs w)) as [d|] eqn:E; simpl; rewrite ?E; simpl.
+  - split; [reflexivity|]. rewrite lookup_delete_eq. split; [exact HV|].
+    split; [reflexivity|]. eexists. reflexivity.
+  - split; [reflexivity|]. split; [reflexivity|]. eexists. reflexivity.
+Qed.
+
+(* the calls of the pools: store_metadata, retrieve_metadata and delete_metadata(pid, format) on ONE
+   document (p, f); calls that the argument checks reject may be among them *)
+Definition wrd_call (p : pid) (f : fmt) (c : call) : Prop :=
   match c with
   | CStoreMeta p' f' _ _ _ => p' = p /\ f' = f
   | CRetrMeta p' f' => p' = p /\ f' = f
+  | CDelMeta p' (Some f') => p' = p /\ f' = f
   | CRejected _ => True
   | _ => False
   end.
 
-(* the versions the writers of the pool store: complete, all n chunks *)
-Definition stored_version (calls : list call) (d : option fcontent) : Prop :=
-  exists p f s v n, In (CStoreMeta p f s v n) calls /\ s <> SrcMissing /\ d = Some (CData v n n).
+(* what the commits of the pool make of the document: a complete stored version, or absent *)
+Definition pool_version (calls : list call) (d : option fcontent) : Prop :=
+  stored_version calls d \/ (d = None /\ exists p f, In (CDelMeta p (Some f)) calls).
 
-Lemma wr_shape : forall p f calls i q,
-  (forall ci, In ci calls -> wr_call p f ci) -> nth_error (map api calls) i = Some q ->
-  (exists r, q = Ret r) \/ q = reader_prog p f \/ wprog p f (stored_version calls) i q.
+Definition is_reader (calls : list call) (i : nat) : bool :=
+  match nth_error calls i with Some (CRetrMeta _ _) => true | _ => false end.
+
+Lemma wrd_shape : forall p f calls i q,
+  (forall ci, In ci calls -> wrd_call p f ci) -> nth_error (map api calls) i = Some q ->
+  (exists r, q = Ret r) \/ q = reader_prog p f \/ wprog p f (pool_version calls) i q.
 Proof.
   intros p f calls i q Hc Hq. rewrite nth_error_map in Hq.
   destruct (nth_error calls i) as [ci|] eqn:E; [|discriminate]. inversion Hq; subst q.
   pose proof (nth_error_In _ _ E) as Hin. specialize (Hc ci Hin).
   destruct ci; simpl in Hc; try contradiction.
   - destruct Hc as [-> ->]. right. right.
-    destruct (store_metadata_pre p f (stored_version calls) s v n) as (k & Ek & Hk).
-    { intros Hs. exists p, f, s, v, n. auto. }
+    destruct (store_metadata_pre p f (pool_version calls) s v n) as (k & Ek & Hk).
+    { intros Hs. left. exists p, f, s, v, n. auto. }
     exists k. split; [exact Ek|]. intros w. apply Hk.
   - destruct Hc as [-> ->]. right. left. reflexivity.
+  - destruct f0 as [f0|]; [|contradiction]. destruct Hc as [-> ->]. right. right.
+    destruct (delete_metadata_pre p f (pool_version calls)) as (k & Ek & Hk).
+    { right. split; [reflexivity|]. exists p, f. exact Hin. }
+    exists k. split; [exact Ek|]. intros w. apply Hk.
   - left. eexists. reflexivity.
 Qed.
 
-(* (2) THE THEOREM.  Any number of store_metadata and retrieve_metadata calls on one document,
-   started in any world that holds no lock (reference files typed: every world satisfying
-   Spec.Inv), under ANY schedule: a configuration in which no thread can move is one in which every
-   call has returned and no lock is held, and the final WORLD and every call's outcome are exactly
-   those of running the calls one after the other in the order [lin_order]: each writer at its
-   Rename (the writers in the order in which they acquired the lock), each reader at its last
-   operation; the rejected calls last. *)
-Theorem one_doc_writers_readers_linearizable :
+Lemma is_reader_spec : forall p f calls i,
+  (forall ci, In ci calls -> wrd_call p f ci) ->
+  (is_reader calls i = true <-> nth_error (map api calls) i = Some (reader_prog p f)).
+Proof.
+  intros p f calls i Hc. unfold is_reader. rewrite nth_error_map.
+  destruct (nth_error calls i) as [ci|] eqn:E; [|split; discriminate].
+  pose proof (Hc ci (nth_error_In _ _ E)) as Hw.
+  assert (Hno : forall q : M value, (forall k, q <> Vis (Probe (AMeta p f)) k) ->
+            (false = true <-> Some q = Some (reader_prog p f))).
+  { intros q Hq. split; [discriminate|]. intros H. exfalso. inversion H as [H1].
+    unfold reader_prog, retrieve_metadata, probe in H1. eapply Hq. exact H1. }
+  destruct ci; simpl in Hw; try contradiction; cbn [api].
+  - apply Hno. intros k H. unfold store_metadata, acquire in H. simpl in H. discriminate H.
+  - destruct Hw as [-> ->]. split; reflexivity.
+  - destruct f0; [|contradiction]. apply Hno. intros k H.
+    unfold lift_unit, delete_metadata, acquire in H. simpl in H. discriminate H.
+  - apply Hno. intros k H. discriminate H.
+Qed.
+
+(* on these pools the comparison through [nfn] is LinNF's *)
+Lemma tres_nf : forall calls c i,
+  tres (map api calls) (is_reader calls) c i =
+  LinNF.nf_norm_one (nth_error calls i) (thread_result (map api calls) c i).
+Proof.
+  intros calls c i. unfold tres, nrm, is_reader, LinNF.nf_norm_one.
+  destruct (thread_result (map api calls) c i) as [r|]; [|destruct (nth_error calls i) as [[]|]; reflexivity].
+  destruct (nth_error calls i) as [[]|]; try reflexivity.
+  destruct r as [v|e]; [reflexivity|]. destruct e; reflexivity.
+Qed.
+
+(* (2) THE THEOREM.  Any number of store_metadata, retrieve_metadata and delete_metadata(pid, format)
+   calls on one document, started in any world that holds no lock, under ANY schedule: a
+   configuration in which no thread can move is one in which every call has returned and no lock
+   is held; the final WORLD is the one of running the calls one after the other in the order
+   [lin_order] (each store at its Rename, each delete at its Remove — the stores and deletes in the
+   order in which they acquired the lock —, each reader, and a delete that found the document absent,
+   at its last operation; the rejected calls last), and every call's outcome is the one of that
+   sequential run, a reader's FileNotFoundError being read as the not-found ValueError
+   (LinNF.nf_norm_one; nothing else is relaxed). *)
+Theorem one_doc_writers_readers_deleters_linearizable :
   forall (p : pid) (f : fmt) (calls : list call) (w0 : world) (sched : list nat) (c : cfg),
     locks w0 = [] -> refs_typed (fs w0) ->
-    (forall ci, In ci calls -> wr_call p f ci) ->
+    (forall ci, In ci calls -> wrd_call p f ci) ->
     exec (map api calls) sched (init_cfg (map api calls) w0) = Some c ->
     stuck (map api calls) c ->
     finished (map api calls) c = true /\ locks (snd c) = [] /\
@@ -841,67 +755,78 @@ Theorem one_doc_writers_readers_linearizable :
       NoDup ord /\ (forall i, In i ord <-> i < length calls) /\
       seq_run calls ord w0 = Some (w', rs) /\
       snd c = w' /\
-      map (thread_result (map api calls) c) ord = map Some rs.
+      map (fun i => LinNF.nf_norm_one (nth_error calls i) (thread_result (map api calls) c i)) ord =
+        map Some rs.
 Proof.
   intros p f calls w0 sched c Hl Hrt Hcalls He Hst.
-  destruct (writers_readers_pool p f (stored_version calls)) with (ps := map api calls) (w0 := w0)
-    (sched := sched) (c := c) as (H1 & H2 & _ & w' & rs & H3); auto.
-  - intros d (p' & f' & s & v & n & _ & _ & ->). discriminate.
-  - intros i q Hq. eapply wr_shape; eauto.
+  destruct (writers_readers_pool p f (pool_version calls)) with (ps := map api calls) (w0 := w0)
+    (isrd := is_reader calls) (sched := sched) (c := c) as (H1 & H2 & _ & w' & rs & H3); auto.
+  - intros i q Hq. eapply wrd_shape; eauto.
+  - intros i. apply is_reader_spec. exact Hcalls.
   - apply api_pool_ok.
   - split; [exact H1|]. split; [exact H2|]. exists w', rs.
     rewrite map_length in H3. cbv zeta in *. destruct H3 as (N1 & N2 & N3 & N4 & N5).
     split; [exact N1|]. split; [exact N2|].
-    split; [|split; [exact N4 | exact N5]].
-    rewrite <- seq_runp_seq_run; [exact N3|]. intros i Hi. apply N2 in Hi. exact Hi.
+    split; [|split; [exact N4|]].
+    + rewrite <- seq_runp_seq_run; [exact N3|]. intros i Hi. apply N2 in Hi. exact Hi.
+    + rewrite <- N5. apply map_ext. intros i. symmetry. apply tres_nf.
 Qed.
 
-(* (1) A READER NEVER SEES A PARTIAL DOCUMENT.  In every configuration that any schedule reaches
-   (stuck or not), a retrieve_metadata call that has returned has returned either the not-found
-   ValueError or the COMPLETE content of a version: the document of the start world, whole as it
-   was, or [CData v n n] — all n chunks — of a store_metadata … v n call of the pool. *)
-Theorem readers_never_partial :
+(* (1) A READER NEVER SEES A PARTIAL DOCUMENT, deletes included.  In every configuration that any
+   schedule reaches, a retrieve_metadata call that has returned has returned a not-found error
+   (ValueError, or FileNotFoundError when a delete removed the document under it) or the COMPLETE
+   content of a version: the document of the start world, or all n chunks of a store_metadata of
+   the pool. *)
+Theorem readers_never_partial_del :
   forall (p : pid) (f : fmt) (calls : list call) (w0 : world) (sched : list nat) (c : cfg),
     locks w0 = [] ->
-    (forall ci, In ci calls -> wr_call p f ci) ->
+    (forall ci, In ci calls -> wrd_call p f ci) ->
     exec (map api calls) sched (init_cfg (map api calls) w0) = Some c ->
     forall j r, nth_error calls j = Some (CRetrMeta p f) ->
       thread_result (map api calls) c j = Some r ->
-      r = Exn EValueError \/
+      r = Exn EValueError \/ r = Exn EFileNotFound \/
       exists d, r = Val (VBytes d) /\
         (lookup (AMeta p f) (fs w0) = Some d \/
          exists s v n, In (CStoreMeta p f s v n) calls /\ s <> SrcMissing /\ d = CData v n n).
 Proof.
   intros p f calls w0 sched c Hl Hcalls He j r Hj Hr.
-  destruct (reached_reader_results p f (stored_version calls)) with (ps := map api calls) (w0 := w0)
-    (sched := sched) (c := c) as (_ & HR); auto.
-  - intros d (p' & f' & s & v & n & _ & _ & ->). discriminate.
-  - intros i q Hq. eapply wr_shape; eauto.
-  - destruct (HR j r) as [E|(d & E & HV)]; auto.
+  destruct (reached_reader_results p f (pool_version calls)) with (ps := map api calls) (w0 := w0)
+    (isrd := is_reader calls) (sched := sched) (c := c) as (_ & HR); auto.
+  - intros i q Hq. eapply wrd_shape; eauto.
+  - intros i. apply is_reader_spec. exact Hcalls.
+  - destruct (HR j r) as [E|[E|(d & E & HV)]]; auto.
     + rewrite nth_error_map, Hj. reflexivity.
-    + right. exists d. split; [exact E|]. destruct HV as [HV|(p' & f' & s & v & n & Hin & Hs & E')].
+    + right. right. exists d. split; [exact E|].
+      destruct HV as [HV|[(p' & f' & s & v & n & Hin & Hs & E')|[E' _]]]; [| |discriminate E'].
       * left. symmetry. exact HV.
       * right. inversion E'; subst d. specialize (Hcalls _ Hin). simpl in Hcalls.
         destruct Hcalls as [-> ->]. exists s, v, n. auto.
 Qed.
 
-(* the document itself is never partial either: in every reached configuration it is the start
-   document or a complete stored version *)
-Theorem document_never_partial :
+(* the document itself: in every reached configuration it is the start document, a complete stored
+   version, or absent after a delete of the pool *)
+Theorem document_never_partial_del :
   forall (p : pid) (f : fmt) (calls : list call) (w0 : world) (sched : list nat) (c : cfg),
     locks w0 = [] ->
-    (forall ci, In ci calls -> wr_call p f ci) ->
+    (forall ci, In ci calls -> wrd_call p f ci) ->
     exec (map api calls) sched (init_cfg (map api calls) w0) = Some c ->
     lookup (AMeta p f) (fs (snd c)) = lookup (AMeta p f) (fs w0) \/
-    exists s v n, In (CStoreMeta p f s v n) calls /\ s <> SrcMissing /\
-                  lookup (AMeta p f) (fs (snd c)) = Some (CData v n n).
+    (exists s v n, In (CStoreMeta p f s v n) calls /\ s <> SrcMissing /\
+                   lookup (AMeta p f) (fs (snd c)) = Some (CData v n n)) \/
+    (In (CDelMeta p (Some f)) calls /\ lookup (AMeta p f) (fs (snd c)) = None).
 Proof.
   intros p f calls w0 sched c Hl Hcalls He.
-  destruct (reached_reader_results p f (stored_version calls)) with (ps := map api calls) (w0 := w0)
-    (sched := sched) (c := c) as (HV & _); auto.
-  - intros d (p' & f' & s & v & n & _ & _ & ->). discriminate.
-  - intros i q Hq. eapply wr_shape; eauto.
-  - destruct HV as [HV|(p' & f' & s & v & n & Hin & Hs & E')]; [left; exact HV|].
-    right. specialize (Hcalls _ Hin). simpl in Hcalls. destruct Hcalls as [-> ->].
-    exists s, v, n. auto.
+  destruct (reached_reader_results p f (pool_version calls)) with (ps := map api calls) (w0 := w0)
+    (isrd := is_reader calls) (sched := sched) (c := c) as (HV & _); auto.
+  - intros i q Hq. eapply wrd_shape; eauto.
+  - intros i. apply is_reader_spec. exact Hcalls.
+  - destruct HV as [HV|[(p' & f' & s & v & n & Hin & Hs & E')|(E' & p' & f' & Hin)]]; [left; exact HV| |].
+    + right. left. specialize (Hcalls _ Hin). simpl in Hcalls. destruct Hcalls as [-> ->].
+      exists s, v, n. auto.
+    + right. right. specialize (Hcalls _ Hin). simpl in Hcalls. destruct Hcalls as [-> ->].
+      split; [exact Hin|exact E'].
 Qed.
+
+Print Assumptions one_doc_writers_readers_deleters_linearizable.
+Print Assumptions readers_never_partial_del.
+Print Assumptions document_never_partial_del.
